@@ -217,3 +217,74 @@ func HarnessFifoSidesExcludeEachOther() {
 	vrt.Assert(buf.Length() == 1, "pushed-element-is-in-the-buffer")
 	vrt.Reach("excluded")
 }
+
+// Shutdown with a backlog larger than one batch (230 messages waiting in the hand-over buffer when Close is called):
+// everything is handed to the broker, in order, exactly once, and no batch - the ones written while shutting down
+// included - exceeds 100 messages.
+//verif:entry HarnessShutdownFlushInBatches unwind=400 preempt=0 reach=flushed steps=8000000
+func HarnessShutdownFlushInBatches() {
+	b := &c19Broker{}
+	w := &KafkaWriter{}
+	w.toBatchMessagesChan = make(chan kafka.Message, 4)
+	w.messageBuffer = NewFifoBuffer[kafka.Message]()
+	w.Writer = &kafka.Writer{}
+	w.Topic = "verif"
+	w.batchingLoopDoneCh = make(chan struct{}, 1)
+	w.writeFunction = func(messages []kafka.Message, _ *monitoring.Metric) {
+		b.mu.Lock()
+		b.batches = append(b.batches, len(messages))
+		for _, m := range messages {
+			b.written = append(b.written, string(m.Key))
+		}
+		b.mu.Unlock()
+	}
+	const backlog = 230
+	for i := 0; i < backlog; i++ {
+		w.messageBuffer.Push(kafka.Message{Key: []byte{byte('0' + i/100), byte('0' + i/10%10), byte('0' + i%10)}})
+	}
+	go w.writingLoop()
+	go w.batchingLoop()
+	w.Close()
+	b.mu.Lock()
+	defer b.mu.Unlock()
+	vrt.Assert(len(b.written) == backlog, "event-accepted-before-shutdown-reaches-the-broker")
+	for i, k := range b.written {
+		vrt.Assert(k == string([]byte{byte('0' + i/100), byte('0' + i/10%10), byte('0' + i%10)}), "events-reach-the-broker-in-order-exactly-once")
+	}
+	for _, n := range b.batches {
+		vrt.Assert(n >= 1 && n <= 100, "batches-hold-1-to-100-messages")
+	}
+	vrt.Reach("flushed")
+}
+
+// A long backlog drained in batches while more arrives (1500 queued, 1100 popped in batches of 100, 100 more queued,
+// then drained): the buffer hands out every value exactly once, oldest first, whatever it does internally to reclaim
+// the room of what was popped.
+//verif:entry HarnessFifoLongBacklog unwind=2000 reach=drained steps=20000000
+func HarnessFifoLongBacklog() {
+	f := NewFifoBuffer[int]()
+	next := 0
+	for i := 0; i < 1500; i++ {
+		f.Push(next)
+		next++
+	}
+	expect := 0
+	take := func(k uint) {
+		for _, v := range f.PopMultiple(k) {
+			vrt.Assert(v == expect, "pop-multiple-is-fifo")
+			expect++
+		}
+	}
+	for i := 0; i < 11; i++ {
+		take(100)
+	}
+	for i := 0; i < 100; i++ {
+		f.Push(next)
+		next++
+	}
+	for f.Length() > 0 {
+		take(100)
+	}
+	vrt.Assert(expect == next && next == 1600, "every-value-is-handed-out-exactly-once")
+	vrt.Reach("drained")
+}
